@@ -181,6 +181,10 @@ fn gen(rng: &mut Rng, n: usize, tier: &str) -> Vec<Req> {
         let sc = sr::gen_promotion(rng);
         out.push(Req::new(format!("c06.resolve {reps} {} {} {}", sc.ver, rng.below(8), sc.payload()), format!("promotion{}", sr::shape(&sc))));
     }
+    for _ in 0..(n / 8).max(24) {
+        let sc = sr::gen_sloppy_auth(rng);
+        out.push(Req::new(format!("c06.resolve {reps} {} {} {}", sc.ver, rng.below(8), sc.payload()), format!("sloppy{}", sr::shape(&sc))));
+    }
     eprintln!("generator statistics: {stats:?}");
     out
 }
